@@ -13,6 +13,7 @@ Confirm a seeded change (mutant) and run /verif's checks against it.
 import sys, os, subprocess, json, shutil, time
 
 ROOT = os.path.dirname(os.path.dirname(os.path.abspath(__file__)))
+REPO = os.path.realpath(os.environ.get("SEED_REPO", os.path.join(ROOT, "repo-link")))   # a lab copy of /verif has its own clone of /repo
 
 
 def sh(cmd, cwd=None, timeout=1800):
@@ -27,8 +28,8 @@ def main():
     demo = os.path.join(src, "demo.sh")
     meta = {"id": sid, "breaks_property": props[0], "ran": [], "confirmed": {}}
     wt = f"/tmp/seedwt-{sid}"
-    sh(["git", "-C", "/repo", "worktree", "remove", "--force", wt])
-    rc, out = sh(["git", "-C", "/repo", "worktree", "add", "--detach", wt, "HEAD"])
+    sh(["git", "-C", REPO, "worktree", "remove", "--force", wt])
+    rc, out = sh(["git", "-C", REPO, "worktree", "add", "--detach", wt, "HEAD"])
     assert rc == 0, out
     try:
         rc, out = sh(["cargo", "build", "--offline"], cwd=wt)
@@ -46,16 +47,16 @@ def main():
         meta["confirmed"]["demo_fails_with_patch"] = (rc1 != 0)
         meta["demo_output_with_patch"] = out1[-1500:]
     finally:
-        sh(["git", "-C", "/repo", "worktree", "remove", "--force", wt])
+        sh(["git", "-C", REPO, "worktree", "remove", "--force", wt])
         shutil.rmtree(wt, ignore_errors=True)
     ok = all(meta["confirmed"].get(k) for k in
              ["demo_passes_on_clean_tree", "patch_applies", "builds", "tests_pass", "demo_fails_with_patch"])
     meta["valid"] = ok
     detected = {}
     if ok:
-        rc, out = sh(["git", "-C", "/repo", "status", "--short"])
-        assert out.strip() == "", "/repo not clean: " + out
-        rc, out = sh(["git", "-C", "/repo", "apply", patch])
+        rc, out = sh(["git", "-C", REPO, "status", "--short"])
+        assert out.strip() == "", REPO + " not clean: " + out
+        rc, out = sh(["git", "-C", REPO, "apply", patch])
         assert rc == 0, out
         try:
             for p in props:
@@ -65,7 +66,7 @@ def main():
                 detected[p] = {"exit": rc, "violation_lines": lines[:4], "wall_s": round(time.time() - t0, 1)}
                 meta["ran"].append(f"./check {p} --quick")
         finally:
-            sh(["git", "-C", "/repo", "checkout", "--", "."])
+            sh(["git", "-C", REPO, "checkout", "--", "."])
     meta["detected_by"] = [p for p, d in detected.items() if d["exit"] != 0]
     meta["check_results"] = detected
     notes = os.path.join(src, "notes.md")
